@@ -678,7 +678,7 @@ class Emitter:
                 cn = 'struct S_' + s.mangle(t.name)
                 s.tnames[key] = cn
                 s.typedefs.append(('fwd', cn))
-                s.emit_struct(cn, rt)
+                s.emit_struct(cn, rt, union=s.is_union(t))
             return s.tnames[key]
         if isinstance(t, TInt):
             if t.bits == 1: return 'u1'
@@ -719,8 +719,28 @@ class Emitter:
             s.typedefs.append(('raw', 'typedef %s (*%s)(%s);' % (s.ctype(ft.ret), cn, ps)))
         return s.tnames[key]
 
-    def emit_struct(s, cn, t):
+    def is_union(s, t):
+        return isinstance(t, TNamed) and ('union.' in t.name) and isinstance(s.mod.types.get(t.name), TStruct)
+
+    def field_offset(s, st, i):
+        off = 0
+        for k, f in enumerate(st.fields):
+            a = 1 if st.packed else s.alignof(f)
+            off = (off + a - 1)//a*a
+            if k == i: return off
+            off += s.sizeof(f)
+        raise Exception('field_offset')
+
+    def emit_struct(s, cn, t, union=False):
         t = s.resolve(t)
+        if union:
+            # C++ unions: LLVM types them by one member (often a pointer-carrying struct) and reaches the others through
+            # bitcasts.  cbmc 6.11's simplifier mis-evaluates integer constants that travel through pointer-typed storage
+            # (sign tests fold to true), so union storage is emitted as an untyped word blob and every access is a cast.
+            al = s.alignof(t); sz = s.sizeof(t)
+            el = {1: 'u8', 2: 'u16', 4: 'u32'}.get(al, 'u64'); w = {1: 1, 2: 2, 4: 4}.get(al, 8)
+            s.typedefs.append(('def', cn, '%s { %s w[%d]; };' % (cn, el, max(sz // w, 1))))
+            return
         if isinstance(t, (TArr, TVec)):
             # make sure element type is complete first
             el = s.ctype(t.el)
@@ -825,6 +845,14 @@ class Emitter:
         path = ''
         for (it, ie, iv) in idx[1:]:
             rc = s.resolve(cur)
+            if s.is_union(cur):
+                assert iv[0] == 'int'
+                if path:
+                    e = '(&(*%s)%s)' % (e, path); path = ''
+                ft = rc.fields[iv[1]]
+                e = '((%s*)((u8*)%s + %d))' % (s.ctype(ft), e, s.field_offset(rc, iv[1]))
+                cur = ft
+                continue
             if isinstance(rc, TStruct):
                 assert iv[0] == 'int'
                 path += '.f%d' % iv[1]
